@@ -167,7 +167,7 @@ def gen_arg(r, ty):
     if ty == "struct CSliceRef_u8":
         off = r.below(32)
         return [off, r.below(33 - off)]
-    if ty in ("const uint8_t *", "void *"):
+    if ty in ("const uint8_t *", "void *", hdrgen.OUT_SLOT):
         return r.below(64)
     if ty.startswith("struct Callback_c_void__"):
         return [r.below(64), r.below(2)]
@@ -199,6 +199,8 @@ def c_value(ty, v):
         return "(const uint8_t *)(BUF + %d)" % v
     if ty == "void *":
         return "(void *)(BUF + %d)" % v
+    if ty == hdrgen.OUT_SLOT:
+        return "(%s)(void *)(BUF + %d)" % (ty, v)
     if ty.startswith("struct Callback_c_void__"):
         return "(%s){ (void *)(BUF + %d), %s }" % (ty, v[0], "cb_one" if v[1] else "cb_zero")
     raise ValueError(ty)
@@ -210,7 +212,7 @@ def text_value(ty, v):
         return "pair(%d,%d)" % (v[0], v[1])
     if ty == "struct CSliceRef_u8":
         return "slice(+%d,%d)" % (v[0], v[1])
-    if ty in ("const uint8_t *", "void *"):
+    if ty in ("const uint8_t *", "void *", hdrgen.OUT_SLOT):
         return "ptr(+%d)" % v
     if ty.startswith("struct Callback_c_void__"):
         return "cb(+%d,%d)" % (v[0], v[1])
@@ -223,7 +225,7 @@ def c_print(ty, expr):
         return 'printf("pair(%%llu,%%llu)", (unsigned long long)(%s).a, (unsigned long long)(%s).b);' % (expr, expr)
     if ty == "struct CSliceRef_u8":
         return 'printf("slice(+%%ld,%%llu)", (long)((%s).data - BUF), (unsigned long long)(%s).len);' % (expr, expr)
-    if ty in ("const uint8_t *", "void *"):
+    if ty in ("const uint8_t *", "void *", hdrgen.OUT_SLOT):
         return 'printf("ptr(+%%ld)", (long)((const uint8_t *)(%s) - BUF));' % expr
     if ty.startswith("struct Callback_c_void__"):
         return 'printf("cb(+%%ld,%%d)", (long)((const uint8_t *)(%s).context - BUF), (%s).func == cb_one ? 1 : ((%s).func == cb_zero ? 0 : -1));' % (expr, expr, expr)
@@ -596,6 +598,8 @@ def cpp_value(ty, v, model):
         return "(const uint8_t *)(BUF + %d)" % v
     if ty == "void *":
         return "(void *)(BUF + %d)" % v
+    if ty == hdrgen.OUT_SLOT:
+        return "(CTup2<CSliceRef<uint8_t>, uintptr_t> *)(void *)(BUF + %d)" % v
     if ty.startswith("struct Callback_c_void__"):
         return "mk_cb((void *)(BUF + %d), %s)" % (v[0], "cb_one" if v[1] else "cb_zero")
     raise ValueError(ty)
@@ -647,7 +651,7 @@ def gen_driver_cpp(model, plan, header_path):
                 recv = {"ref": "const Cont%d *cont" % k, "mut": "Cont%d *cont" % k, "own": "Cont%d cont" % k}[kind]
                 ps = [recv]
                 for a in args:
-                    ct = hdrgen.cpp_type(a[0], m)
+                    ct = hdrgen.cpp_type_processed(a[0], m)
                     ps.append("%s%s%s" % (ct, "" if ct.endswith("*") else " ", a[1]))
                 rt = ("Cont%d" % k) if is_clone else hdrgen.cpp_type(ret, m)
                 w("static %s%smock_%d_%s_%s(%s) {" % (rt, "" if rt.endswith("*") else " ", k, v["field"], fname, ", ".join(ps)))
